@@ -56,6 +56,13 @@ EXTRA = {
     'W10': [('S', {'A1': True, 'A2': 1, 'A3': 0, 'A4': False, 'A5': 1.0, 'B1': '=A1&A2&A3&A4', 'C1': '=SUM(A:A)+COUNT(A:B)'})],
     'W11': [('S', {'A1': 1, 'A2': True, 'A3': False, 'A4': 0, 'A5': 2, 'A6': 4, 'A7': 8, 'B1': '=A1&A2&A3&A4', 'C1': '=SUM(A:A)+COUNT(A:B)'})],
     'W12': [('S', {'A1': 5, 'A2': 6, 'C1': '=SUM(A:A)+COUNT(A:B)', 'D1': '=VLOOKUP(6,A:B,1,0)'})],
+    # arguments spelled twice inside one call (anything that de-duplicates them through a set orders them by hash)
+    'W13': [('S', dict({f'{c}1': i + 1 for i, c in enumerate('ABCDEF')},
+                       A2='=MIN(A1,B1,C1,D1,E1,F1,A1)', B2='=MAX(F1,A1,B1,C1,D1,E1,F1)', C2='=SUM(A1,B1,A1,C1,D1,B1)',
+                       D2='=AVERAGE(A1:B1,C1,A1:B1,D1,E1)', E2='=COUNT(A1,B1,C1,A1,D1,E1,F1)', F2='=AND(A1>0,B1>0,A1>0,C1>0,D1>0)',
+                       G2='=OR(A1>9,B1>9,C1>9,A1>9,D1>9)', H2='=CONCATENATE(A1,B1,C1,A1,D1,E1)', I2='=A1&B1&C1&A1&D1&E1&A1',
+                       J2='=IFS(A1>5,B1,C1>5,D1,A1>5,E1,TRUE,F1)', K2='=SUMIFS(A1:F1,A1:F1,">1",A1:F1,"<6",A1:F1,">1")',
+                       L2='=COUNTIFS(A1:F1,">1",A1:F1,"<6",A1:F1,">1")', M2='=NETWORKDAYS(A1,F1,A1:F1)'))],
     'W6': [('S', {f'{c}{r}': (r * 10 + i if (r + i) % 3 else f'={c}{r - 1 or 9}+1') for i, c in enumerate('ABCDE')
                   for r in range(1, 9) if not (r == 1 and (r + i) % 3 == 0)})],
 }
